@@ -4,7 +4,7 @@ import ast
 from sa.loader import AnalysisError, norm, walk_local
 from sa.cfg import cfg_of
 from sa.spec import logical as spec
-from .common import assigned_values, analysis, names_in, str_consts_compared
+from .common import true_facts, assigned_values, analysis, names_in, str_consts_compared
 
 PROP = "C20"
 TECHNIQUE = "exhaustiveness of the type-directed generator against the writers' table; interval containment of every random.randint with constant-folded bounds in the validator's interval and the logical reader's domain; CFG count rule; parse-before-generate with the threaded name table"
@@ -58,70 +58,102 @@ def run(ctx):
     ctx.rule("C20.R2", "every randint(a, b) lies inside the base type's interval and the logical reader's domain", floor=8)
     cfg = cfg_of(g)
     n_r = 0
-    todo = []
-    for n in walk_local(g.node):
-        if not (isinstance(n, ast.Call) and norm(n.func) == "random.randint"):
+    import re as _re
+    from sa.pathsum import summaries
+
+    def lits(facts, what):
+        """literals the path facts pin `what` (record type / logical type) to"""
+        out = set()
+        for x in facts:
+            m = _re.fullmatch(r"(?:%s) == '([\w\-]+)'" % what, x)
+            if m:
+                out.add(m.group(1))
+            m = _re.fullmatch(r"(?:%s) in \((.*)\)" % what, x)
+            if m:
+                out |= set(_re.findall(r"'([\w\-]+)'", m.group(1)))
+        return out
+
+    RT = r"record_type|extract_record_type\(\w+\)"
+    LT = r"logical_type|extract_logical_type\(\w+\)"
+    seen_calls = set()
+    for s_ in summaries(cfg, max_paths=5000):
+        if s_.kind != "return" or "randint" not in s_.text:
             continue
-        if len(n.args) == 2 and not any(isinstance(x, ast.Starred) for x in n.args):
-            todo.append((n, n.args[0], n.args[1]))
-        elif len(n.args) == 1 and isinstance(n.args[0], ast.Starred):
-            # randint(*bounds): every pair the bounds expression can denote (a table of pairs looked up by key)
-            src_ = n.args[0].value
-            vals = assigned_values(g.node, src_.id) if isinstance(src_, ast.Name) else [src_]
-            pairs = []
-            for v in vals:
+        try:
+            tree = ast.parse(s_.text, mode="eval").body
+        except SyntaxError:
+            continue
+        bases, lt_lits = lits(s_.facts, RT), lits(s_.facts, LT)
+        for n in ast.walk(tree):
+            if not (isinstance(n, ast.Call) and norm(n.func) == "random.randint"):
+                continue
+            pairs = None
+            if len(n.args) == 2 and not any(isinstance(x, ast.Starred) for x in n.args):
+                pairs = [(n.args[0], n.args[1])]
+            elif len(n.args) == 1 and isinstance(n.args[0], ast.Starred):
+                v = n.args[0].value
                 tbl = v.func.value if isinstance(v, ast.Call) and isinstance(v.func, ast.Attribute) and v.func.attr == "get" else (v.value if isinstance(v, ast.Subscript) else None)
                 folded = p.try_fold(umod, tbl, None) if tbl is not None else p.try_fold(umod, v, None)
-                if isinstance(folded, dict):
-                    pairs += [x for x in folded.values()]
-                elif isinstance(folded, (tuple, list)) and len(folded) == 2 and all(isinstance(x, int) for x in folded):
-                    pairs.append(tuple(folded))
-                else:
-                    pairs = None
-                    break
-            if not pairs or not all(isinstance(x, (tuple, list)) and len(x) == 2 for x in pairs):
-                ctx.unrecognised("C20.R2", f"gen_data: {norm(n)}", g.where(n), "bounds of a starred randint do not fold to a table of pairs")
-                n_r += 1
+                if isinstance(folded, dict) and all(isinstance(x, (tuple, list)) and len(x) == 2 for x in folded.values()):
+                    pairs = [(ast.Constant(value=x[0]), ast.Constant(value=x[1])) for x in folded.values()]
+                elif isinstance(folded, (tuple, list)) and len(folded) == 2:
+                    pairs = [(ast.Constant(value=folded[0]), ast.Constant(value=folded[1]))]
+            keyed = None
+            if pairs is not None and all(isinstance(x, ast.Name) for x in pairs[0]):
+                # (lo, hi) = TABLE.get(<logical type>, <default pair>): every entry is a draw for its key
+                lo_n, hi_n = pairs[0][0].id, pairs[0][1].id
+                for st in walk_local(g.node):
+                    if isinstance(st, ast.Assign) and len(st.targets) == 1 and isinstance(st.targets[0], ast.Tuple) and [norm(x) for x in st.targets[0].elts] == [lo_n, hi_n] and true_facts(cfg, cfg.node_of(st)) <= s_.facts | {x for x in true_facts(cfg, cfg.node_of(st))}:
+                        v = st.value
+                        tbl = v.func.value if isinstance(v, ast.Call) and isinstance(v.func, ast.Attribute) and v.func.attr == "get" else (v.value if isinstance(v, ast.Subscript) else None)
+                        folded = p.try_fold(umod, tbl, None) if tbl is not None else None
+                        if isinstance(folded, dict) and all(isinstance(x, (tuple, list)) and len(x) == 2 for x in folded.values()):
+                            # only the table reached under this path's base type
+                            fcts = true_facts(cfg, cfg.node_of(st))
+                            bs_here = lits(fcts, RT)
+                            if bases and bs_here and not (bases & bs_here):
+                                continue
+                            keyed = [(ast.Constant(value=x[0]), ast.Constant(value=x[1]), k) for k, x in folded.items()]
+                            if isinstance(v, ast.Call) and len(v.args) > 1:
+                                dflt = p.try_fold(umod, v.args[1], None)
+                                if isinstance(dflt, (tuple, list)) and len(dflt) == 2:
+                                    keyed.append((ast.Constant(value=dflt[0]), ast.Constant(value=dflt[1]), None))
+            key = (norm(n), tuple(sorted(bases)), tuple(sorted(lt_lits)))
+            if key in seen_calls:
                 continue
-            for lo_, hi_ in pairs:
-                todo.append((n, ast.Constant(value=lo_), ast.Constant(value=hi_)))
-    for n, a0, a1 in todo:
-        n_r += 1
-        lo, hi = p.try_fold(umod, a0, "<x>"), p.try_fold(umod, a1, "<x>")
-        guards = [(norm(t.ast), lab) for (t, lab) in cfg.guards_of(cfg.node_of(n)) if t.kind == "test"]
-        base = None
-        for gt, lab in guards:
-            if gt.startswith("record_type == ") and lab == "true":
-                base = gt.split("== ")[1].strip("'")
-        lt_lits = set()
-        for (t, lab) in cfg.guards_of(cfg.node_of(n)):
-            if t.kind == "test" and lab == "true" and "logical_type ==" in norm(t.ast):
-                for c in ast.walk(t.ast):
-                    if isinstance(c, ast.Constant) and isinstance(c.value, str) and "-" in c.value:
-                        lt_lits.add(c.value)
-        inst = f"gen_data: {norm(n)} under {base}{'/' + '|'.join(sorted(lt_lits)) if lt_lits else ''}"
-        if lo == "<x>" or hi == "<x>":
-            if "len(" in norm(n):
-                ctx.holds("C20.R2", inst + " [index into a sequence: 0 .. len-1]", g.where(n)) if norm(n.args[0]) == "0" and norm(n.args[1]).endswith(") - 1") else ctx.violation("C20.R2", inst, g.where(n), f"gen_data: {norm(n)}", "an index drawn outside 0 .. len-1")
-            else:
-                ctx.unrecognised("C20.R2", inst, g.where(n), "bounds do not fold to constants")
-            continue
-        ok = lo <= hi
-        why = f"empty interval [{lo}, {hi}]"
-        if base in ("int", "long"):
-            blo, bhi = spec.INT if base == "int" else spec.LONG
-            if not (blo <= lo and hi <= bhi):
-                ok, why = False, f"[{lo}, {hi}] is not inside the {base} range [{blo}, {bhi}]"
-        if base == "boolean":
-            if (lo, hi) != (0, 1):
-                ok, why = False, f"boolean drawn from [{lo}, {hi}]"
-        for lt in lt_lits:
-            d = spec.DOMAIN.get(lt)
-            if d is not None and not (d[0] <= lo and hi <= d[1]):
-                ok, why = False, f"[{lo}, {hi}] is not inside the domain [{d[0]}, {d[1]}] on which the {lt} reader returns a value (randint includes its upper bound)"
-        ctx.check("C20.R2", inst, ok, g.where(n), f"gen_data: {norm(n)} = [{lo}, {hi}]", why)
+            seen_calls.add(key)
+            n_r += len(keyed) if keyed is not None else 1
+            base = next(iter(bases)) if len(bases) == 1 else None
+            inst = f"gen_data: {norm(n)[:70]} under {'|'.join(sorted(bases)) or '?'}{'/' + '|'.join(sorted(lt_lits)) if lt_lits else ''}"
+            if pairs is None:
+                ctx.unrecognised("C20.R2", inst, g.where(), "bounds of randint are not two expressions or a foldable table of pairs")
+                continue
+            for entry in (keyed if keyed is not None else [(x, y, "<path>") for x, y in pairs]):
+                a0, a1, ltk = entry
+                lts_here = lt_lits if ltk == "<path>" else ({ltk} if ltk else set())
+                lo, hi = p.try_fold(umod, a0, "<x>"), p.try_fold(umod, a1, "<x>")
+                if lo == "<x>" or hi == "<x>":
+                    if "len(" in norm(n):
+                        ctx.holds("C20.R2", inst + " [index into a sequence: 0 .. len-1]", g.where()) if norm(a0) == "0" and norm(a1).endswith(") - 1") else ctx.violation("C20.R2", inst, g.where(), f"gen_data: {norm(n)}", "an index drawn outside 0 .. len-1")
+                    else:
+                        ctx.unrecognised("C20.R2", inst, g.where(), "bounds do not fold to constants")
+                    continue
+                ok = lo <= hi
+                why = f"empty interval [{lo}, {hi}]"
+                for bs in (bases or {None}):
+                    if bs in ("int", "long"):
+                        blo, bhi = spec.INT if bs == "int" else spec.LONG
+                        if not (blo <= lo and hi <= bhi):
+                            ok, why = False, f"[{lo}, {hi}] is not inside the {bs} range [{blo}, {bhi}]"
+                    if bs == "boolean" and (lo, hi) != (0, 1):
+                        ok, why = False, f"boolean drawn from [{lo}, {hi}]"
+                for lt in lts_here:
+                    d = spec.DOMAIN.get(lt)
+                    if d is not None and not (d[0] <= lo and hi <= d[1]):
+                        ok, why = False, f"[{lo}, {hi}] is not inside the domain [{d[0]}, {d[1]}] on which the {lt} reader returns a value (randint includes its upper bound)"
+                ctx.check("C20.R2", inst, ok, g.where(), f"gen_data: {norm(n)[:60]} = [{lo}, {hi}]", why)
     if n_r < 6:
-        raise AnalysisError(f"only {n_r} randint calls found in gen_data")
+        raise AnalysisError(f"only {n_r} randint draws found on the return paths of gen_data")
 
     ctx.rule("C20.R3", "one value yielded per iteration of range(count); generate_one = next(generate_many(schema, 1))", floor=2)
     gm = p.func("utils:generate_many")
